@@ -197,16 +197,22 @@ Uniq(s) == IF Len(s) <= 1 THEN s
            ELSE IF s[1] = s[2] THEN Uniq(Tail(s)) ELSE <<s[1]>> \o Uniq(Tail(s))
 
 \* ------------------------------------------------------------- summarize
-\* op = [k |-> "summ", agg |-> "count"|"sum", key |-> ""|name (LHS), kr |-> field (RHS),
+\* op = [k |-> "summ", agg |-> "count"|"sum", key |-> ""|name (LHS), kr |-> field (RHS), fn |-> ""|"floor",
 \*       dir |-> -1|0|1 (InputSortDir), pin, pout |-> BOOLEAN]
 \* The aggregated field is b; with partials-in the input records are partial
 \* results {key, count|sum} which are summed (count's and sum's partial is a sum).
-RECURSIVE DistinctKeys(_, _)
-DistinctKeys(s, f) ==      \* group keys in first-appearance order
-  IF s = <<>> THEN <<>>
-  ELSE LET k == Get(s[1], f)
-           rest == DistinctKeys(SelectSeq(Tail(s), LAMBDA v : Get(v, f) # k), f)
-       IN <<k>> \o rest
+\* the group key of a value: the field kr, or fn(kr) -- floor of an int is that int, of null
+\* null, of a missing operand an error value (not error("missing")); with partials-in the
+\* key column of the partial result
+FLOORERR == [t |-> "errv", n |-> 2, fs |-> <<>>]
+KeyVal(op, v) ==
+  IF op.pin THEN Get(v, op.key)
+  ELSE LET x == Get(v, op.kr) IN IF op.fn # "" /\ x.t \notin {"int", "null"} THEN FLOORERR ELSE x
+KeysOfOp(op, s) == [i \in 1..Len(s) |-> KeyVal(op, s[i])]
+RECURSIVE DistinctSeq(_)
+DistinctSeq(ks) ==      \* first-appearance order
+  IF ks = <<>> THEN <<>>
+  ELSE <<ks[1]>> \o DistinctSeq(SelectSeq(Tail(ks), LAMBDA k : k # ks[1]))
 RECURSIVE SumInts(_, _)
 SumInts(s, f) == IF s = <<>> THEN 0
                  ELSE (LET x == Get(s[1], f) IN IF x.t = "int" THEN x.n ELSE 0) + SumInts(Tail(s), f)
@@ -220,10 +226,10 @@ Summ(op, s) ==
        IF s = <<>> THEN <<>>
        ELSE IF op.pout THEN <<RecV(<<Fld(op.agg, AggOf(op, s))>>)>>     \* summarize partials-out; (yield follows the partials-in stage)
        ELSE <<AggOf(op, s)>>                                             \* summarize | yield count
-  ELSE LET kf == IF op.pin THEN op.key ELSE op.kr
-           ks == DistinctKeys(s, kf)
-       IN [i \in 1..Len(ks) |->
-             RecV(<<Fld(op.key, ks[i]), Fld(op.agg, AggOf(op, SelectSeq(s, LAMBDA v : Get(v, kf) = ks[i])))>>)]
+  ELSE LET all == KeysOfOp(op, s)
+           ks == DistinctSeq(all)
+           grp(k) == LET ix == SelectSeq([i \in 1..Len(s) |-> i], LAMBDA i : all[i] = k) IN [j \in 1..Len(ix) |-> s[ix[j]]]
+       IN [i \in 1..Len(ks) |-> RecV(<<Fld(op.key, ks[i]), Fld(op.agg, AggOf(op, grp(ks[i])))>>)]
 
 \* groupby.go with InputSortDir # 0 (streaming release).  The aggregator tracks the
 \* largest primary key seen (maxTableKey, under expr.NewValueCompareFn(o, nullsMax =
@@ -242,9 +248,8 @@ KAsc(x, y) ==
   ELSE IF y.t = "int" THEN 1
   ELSE IF x.t = "null" THEN 1 ELSE -1            \* err < null
 KCmp(desc, x, y) == IF desc THEN KAsc(y, x) ELSE KAsc(x, y)
-KeysOf(s, f) == [i \in 1..Len(s) |-> Get(s[i], f)]
-CanSplit(x, f, desc) ==
-  LET ks == KeysOf(x.s, f)
+CanSplit(x, op, desc) ==
+  LET ks == KeysOfOp(op, x.s)
       n == Len(ks)
   IN \E o1 \in 1..n : \E o2 \in 1..n : \E e \in 1..n :
         /\ o1 # o2 /\ e # o1 /\ e # o2
@@ -253,9 +258,9 @@ CanSplit(x, f, desc) ==
         /\ KCmp(desc, ks[e], ks[o1]) > 0
         /\ \A p \in 1..n : x.cls[p] < x.cls[o1] => KCmp(desc, ks[e], ks[p]) > 0
 \* a sort hands its whole output over in one batch: nothing is released in between
-GroupedAlways(x, f, desc) ==
+GroupedAlways(x, op, f, desc) ==
   \/ x.w /\ x.by # NoCmp /\ x.by.f = f /\ SortedBy(x.s, x.by)
-  \/ ~CanSplit(x, f, desc)
+  \/ ~CanSplit(x, op, desc)
 \* input validity for declared sort keys (Rewrite.tla): equal keys are contiguous
 Grouped(s, f) == \A i \in 1..Len(s) : \A j \in i+1..Len(s) :
                    Get(s[i], f) = Get(s[j], f) => \A m \in i..j : Get(s[m], f) = Get(s[i], f)
@@ -398,7 +403,7 @@ SemOp(op, st) ==
                     oc == MaxCmp(op.key, op.dir < 0)
                 IN St(<<IF sortedOut THEN Mk(out, ClsBy(Len(out), LAMBDA i, j : Cmp(oc, out[i], out[j]) = 0), oc) ELSE Bag(out)>>,
                       st.det,
-                      st.poison \/ (op.dir # 0 /\ op.key # "" /\ ~GroupedAlways(x, kf, op.dir < 0)))
+                      st.poison \/ (op.dir # 0 /\ op.key # "" /\ ~GroupedAlways(x, op, kf, op.dir < 0)))
 
 SemSeq(ops, st) == IF ops = <<>> THEN st ELSE SemSeq(Tail(ops), SemOp(ops[1], st))
 
